@@ -472,3 +472,85 @@ def rule_py_depth_selector_regular(rep, floor=1):
     if n < 1:
         raise AnalysisError("no depth-selecting node function found (to_categorical has one)")
     return r.done()
+
+
+def rule_py_duplicate_read(rep, floor=10):
+    r = rep.rule("DEAD.py-duplicate-read", "two adjacent assignments that bind different names to the very same attribute or subscript read (`real = node[re]` / `imag = node[re]`) make the second name an alias of the first: "
+                 "where the names say they are a pair (real/imag, starts/stops, x/y) the second read was meant to differ - from_json built complex numbers whose imaginary part was the real part", floor=floor)
+    n = 0
+    for rel in _mods():
+        m = pf.module(rel)
+        for fn in _funcs(m.tree):
+            occ = 0
+            for blk in _blocks(fn.body):
+                for a, b in zip(blk, blk[1:]):
+                    if not all(isinstance(s, ast.Assign) and len(s.targets) == 1 and isinstance(s.targets[0], ast.Name) and isinstance(s.value, (ast.Subscript, ast.Attribute)) for s in (a, b)):
+                        continue
+                    n += 1
+                    occ += 1
+                    same = a.targets[0].id != b.targets[0].id and ast.dump(a.value) == ast.dump(b.value)
+                    r.check(not same, "%s:%s#pair%d" % (rel, fn.name, occ), m.where(b), "%s: %s binds `%s` and `%s` to the same read `%s`" % (rel, fn.name, a.targets[0].id, b.targets[0].id, ast.unparse(b.value)[:50]),
+                            detail="different reads")
+    if n < 10:
+        raise AnalysisError("only %d adjacent read-assignments found" % n)
+    return r.done()
+
+
+def rule_py_boundary_search_side(rep, floor=3):
+    r = rep.rule("SIDE.py-boundary-search", "a searchsorted whose haystack is an array of boundaries (its name contains `stops`, `offsets` or `positions`) states its `side` explicitly, and for `stops` (exclusive ends of "
+                 "partitions) the side is \"right\": a position equal to a stop belongs to the next partition, and NumPy's default \"left\" selects the previous one (compiled `array[3]` on partitions of "
+                 "length 3 read one past the end of the first)", floor=floor)
+    n = 0
+    for rel in _mods():
+        m = pf.module(rel)
+        occ = {}
+        for c in ast.walk(m.tree):
+            if not (isinstance(c, ast.Call) and (pf.dotted(c.func) or "").split(".")[-1] == "searchsorted" and c.args):
+                continue
+            hay = ast.unparse(c.args[0])
+            if not any(w in hay for w in ("stops", "offsets", "positions")):
+                continue
+            n += 1
+            fn = _owner_func(c)
+            nm = getattr(fn, "name", "<module>")
+            occ[nm] = occ.get(nm, 0) + 1
+            side = next((k.value for k in c.keywords if k.arg == "side"), None)
+            sval = side.value if isinstance(side, ast.Constant) else None
+            ok = sval in ("left", "right") and not ("stops" in hay and sval != "right")
+            r.check(ok, "%s:%s#searchsorted%d" % (rel, nm, occ[nm]), m.where(c), "%s: %s searches the boundaries `%s` with side=%s" % (rel, nm, hay[:40], repr(sval) if side is not None else "NumPy's default ('left')"),
+                    detail="side=%s" % sval)
+    if n < 3:
+        raise AnalysisError("only %d searches over boundary arrays found" % n)
+    return r.done()
+
+
+_STRUCT_ATTRS = ("content", "offsets", "starts", "stops", "index", "tags", "mask", "contents")
+
+
+def rule_py_derived_node_mix(rep, floor=3):
+    r = rep.rule("MIX.py-derived-node", "once a node `new` has been derived from `old` by a conversion that re-numbers its pieces together (`new = old.toListOffsetArray64(True)`, `.toRegularArray()`, `.simplify()`, "
+                 "`.project()`) and the code goes on to read pieces of `new`, it does not read the structural pieces of `old` (content, offsets, starts, stops, index, tags, mask) any more in that block: "
+                 "`new.offsets` with `old.content` pairs zero-based offsets with content that still starts where the slice did (ak.packed(array[1:]) returned the first lists' items)", floor=floor)
+    n = 0
+    for rel in _mods():
+        m = pf.module(rel)
+        for fn in _funcs(m.tree):
+            occ = 0
+            for blk in _blocks(fn.body):
+                for i, s in enumerate(blk):
+                    if not (isinstance(s, ast.Assign) and len(s.targets) == 1 and isinstance(s.targets[0], ast.Name) and isinstance(s.value, ast.Call) and isinstance(s.value.func, ast.Attribute)
+                            and isinstance(s.value.func.value, ast.Name) and s.value.func.value.id != s.targets[0].id and s.value.func.attr.startswith(("to", "simplify", "project"))):
+                        continue
+                    N, M = s.targets[0].id, s.value.func.value.id
+                    after = [x for t in blk[i + 1:] for x in ast.walk(t)]
+                    if not any(isinstance(x, ast.Attribute) and isinstance(x.value, ast.Name) and x.value.id == N and x.attr in _STRUCT_ATTRS for x in after):
+                        continue
+                    # stop at a re-binding of either name
+                    n += 1
+                    occ += 1
+                    bad = [x for x in after if isinstance(x, ast.Attribute) and isinstance(x.value, ast.Name) and x.value.id == M and x.attr in _STRUCT_ATTRS and isinstance(x.ctx, ast.Load)]
+                    r.check(not bad, "%s:%s#%s<-%s%s" % (rel, fn.name, N, M, "" if occ == 1 else "@%d" % occ), m.where(bad[0]) if bad else m.where(s),
+                            "%s: %s derives `%s` from `%s` and then still reads `%s.%s`" % (rel, fn.name, N, M, M, bad[0].attr if bad else ""), detail="pieces read from the derived node")
+    if n < 2:
+        raise AnalysisError("only %d derived nodes whose pieces are read found" % n)
+    return r.done()
